@@ -46,6 +46,12 @@ func (r *Runner) StartAPI() error {
 // StopAPI stops the API server.
 func (r *Runner) StopAPI() {
 	if r.apiStop != nil {
+		// the server shuts down with a nil context (srv.go): a connection that is not idle at that moment makes
+		// net/http dereference it. Hang up our side first so that the harness does not die of that.
+		if t, ok := http.DefaultTransport.(*http.Transport); ok {
+			t.CloseIdleConnections()
+		}
+		time.Sleep(30 * time.Millisecond)
 		close(r.apiStop)
 		<-r.apiDone
 		r.apiStop = nil
